@@ -120,6 +120,9 @@ type vsObs struct {
 	Panic     string         `json:"panic,omitempty"`
 	Truncated bool           `json:"truncated,omitempty"`
 	EdgeFree  uint64         `json:"edge_free,omitempty"`
+	// goroutines still parked / asleep when the drain ended (reported with the components of the termination
+	// measure of Sched/Term.v when the run did not quiesce)
+	Final map[string]any `json:"final,omitempty"`
 }
 
 // ------------------------------------------------------------------ mocks
@@ -986,6 +989,7 @@ func vsRunCase(dir string, c *vsCase) (obs *vsObs) {
 		if cyc := r.lockCycle(); cyc != nil {
 			obs.Deadlock = map[string]any{"cycle": cyc, "unreplied": r.unreplied(), "parked": r.parkedInfo()}
 		}
+		obs.Final = map[string]any{"parked": r.parkedInfo(), "sleepers": r.sleepers(), "unreplied": r.unreplied()}
 		obs.MaxEnv = os.Getenv("OLLAMA_MAX_LOADED_MODELS")
 
 		// teardown: stop the scheduler, kill whatever is parked, wake sleepers
